@@ -80,11 +80,35 @@ def classify_error(exc, token_error_type) -> tuple:
     return {'id': 'unknown', 'arg': 0, 'l': line}, tname, mess
 
 
+class Watchdog(Exception):
+    """Raised inside the code under test when a single observation runs for WATCHDOG_S seconds
+    (a livelock shows up as an observation with this exception type, which no specification accepts)."""
+
+
+WATCHDOG_S = 20.0
+
+
+def _alarm(signum, frame):
+    raise Watchdog(f'no result after {WATCHDOG_S} s')
+
+
+def watchdog_on() -> None:
+    import signal
+    signal.signal(signal.SIGALRM, _alarm)
+    signal.setitimer(signal.ITIMER_REAL, WATCHDOG_S)
+
+
+def watchdog_off() -> None:
+    import signal
+    signal.setitimer(signal.ITIMER_REAL, 0)
+
+
 def observe(tok, error_type, extra_eof: int = 2, limit: int = 1_000_000) -> dict:
     """Call the tokenizer until EOF (then extra_eof more times) or until it raises."""
     toks = []
     err, etype, msg = NO_ERR, '', ''
     eofs = 0
+    watchdog_on()
     try:
         while eofs <= extra_eof and len(toks) < limit:
             t, v = tok()
@@ -97,6 +121,8 @@ def observe(tok, error_type, extra_eof: int = 2, limit: int = 1_000_000) -> dict
         if isinstance(exc, (KeyboardInterrupt, SystemExit, MemoryError)):
             raise
         err, etype, msg = classify_error(exc, error_type)
+    finally:
+        watchdog_off()
     return {'toks': toks, 'err': err, 'etype': etype, 'msg': msg}
 
 
